@@ -440,6 +440,17 @@ pub fn slab(rec: &mut Recorder, rng: &mut Rng, thorough: bool, outdir: &str) {
         }
         rec.count("slab_helpers");
     }
+    // zero-length symbols through the natural dispatch of every kernel
+    let r = guarded(|| {
+        let mut x = raptorq::Symbol::new(vec![]);
+        let y = raptorq::Symbol::new(vec![]);
+        x += &y;
+        x.mulassign_scalar(&Octet::new(7));
+        x.fused_addassign_mul_scalar(&y, &Octet::new(7));
+        (x.len(), x.is_empty())
+    });
+    if !matches!(r, Ok((0, true))) { rec.impl_violation("kernel operations on zero-length symbols panic or change the length".to_string()); }
+    rec.count("zero_length_symbols");
     // the paired borrow refuses dest == src and out-of-range indices
     let mut slab = SymbolSlab::with_zeros(3, 8);
     for (d, s) in [(1usize, 1usize), (0, 3), (3, 0)] {
